@@ -83,13 +83,14 @@ def oracle(ck, tier, deep):
         src = np.abs(rng.normal(size=(2, n))) + 0.05
         for degree in (0, 1, 2, 3):
             ck.count(("S.nonneg.daun", n, degree), suite="S.equivalence")
-            P = quiet(daun.daun_transform, src, degree=degree, direction="forward")
-            a = quiet(daun.daun_transform, P, degree=degree, reg="nonneg")
-            b = quiet(daun.daun_transform, P, degree=degree)
+            dr = float(rng.choice([1.0, 0.5, 2.0, 0.1]))          # the equivalence is documented for every pixel size
+            P = quiet(daun.daun_transform, src, degree=degree, direction="forward", dr=dr)
+            a = quiet(daun.daun_transform, P, degree=degree, reg="nonneg", dr=dr)
+            b = quiet(daun.daun_transform, P, degree=degree, dr=dr)
             cond = np.linalg.cond(quiet(daun._bs_daun, n, degree))
             if np.abs(b - src).max() < 0.04 and np.abs(a - b).max() > 1e-11 * cond * n:
-                ck.violation(dict(site="daun", clause="nonneg-feasible"), dict(n=n, degree=degree, source=src.tolist()),
-                             f"daun reg='nonneg' differs from the (non-negative) unconstrained solution by {np.abs(a - b).max():.3g}")
+                ck.violation(dict(site="daun", clause="nonneg-feasible"), dict(n=n, degree=degree, dr=dr, source=src.tolist()),
+                             f"daun reg='nonneg' (dr={dr}) differs from the (non-negative) unconstrained solution by {np.abs(a - b).max():.3g}")
     for n in ([15, 25] if not deep else [11, 15, 25, 41]):
         yy, xx = np.mgrid[:n, :n] - n // 2
         r = np.hypot(yy, xx)
